@@ -8,6 +8,13 @@ From V.Ts Require Import Model Report.
 Import ListNotations.
 Open Scope N_scope.
 
+(* identifiers on the wire: values near the top of the usize range (before the counter wraps) are
+   written as 2^41 + (2^64 - id), everything else as itself; wire numbers stay below 2^62 *)
+Definition W40 : N := 1099511627776.
+Definition W41 : N := 2199023255552.
+Definition wid (r : N) : N := if r <? W40 then r else W41 + (ID_MOD - r).
+Definition rid (w : N) : N := if w <? W40 then w else ID_MOD - (w - W41).
+
 Definition p_op : parser (N * ev) :=
   let* dt := pN in
   let* tag := pN in
@@ -16,8 +23,8 @@ Definition p_op : parser (N * ev) :=
   | 1 => let* p := pN in let* c := pN in pret (dt, EEst p c)
   | 2 => let* p := pN in let* c := pN in pret (dt, EClosed p c)
   | 3 => let* p := pN in let* c := pN in let* m := pBool in pret (dt, ESubIn p c m)
-  | 4 => let* i := pN in let* m := pBool in pret (dt, ESubOut i m)
-  | 5 => let* i := pN in pret (dt, ESubFail i)
+  | 4 => let* i := pN in let* m := pBool in pret (dt, ESubOut (rid i) m)
+  | 5 => let* i := pN in pret (dt, ESubFail (rid i))
   | 6 => let* p := pN in pret (dt, EDialFail p)
   | 7 => let* p := pN in pret (dt, EOpen p)
   | 8 => let* c := pN in pret (dt, EDropSub c)
@@ -25,6 +32,7 @@ Definition p_op : parser (N * ev) :=
   | 10 => let* c := pN in pret (dt, EOtherDown c)
   | 11 => let* n := pN in pret (dt, EBump n)
   | 12 => let* c := pN in pret (dt, EShutSub c)
+  | 13 => let* p := pN in pret (dt, EOpenFull p)
   | _ => pfail
   end.
 
@@ -39,8 +47,8 @@ Definition small (x : N) : bool := x <? 1000000.
 Definition ev_small (e : ev) : bool :=
   match e with
   | EEst p c | EClosed p c | ESubIn p c _ => small p && small c
-  | ESubOut i _ | ESubFail i => small i
-  | EDialFail p | EOpen p => small p
+  | ESubOut i _ | ESubFail i => small i || ((ID_MOD - 2000000 <? i) && (i <? ID_MOD))
+  | EDialFail p | EOpen p | EOpenFull p => small p
   | EDropSub c | EOtherUp c | EOtherDown c | EShutSub c => small c
   | EBump n => small n
   | ENone => true
@@ -49,9 +57,11 @@ Definition decode_case (l : list N) : option (bool * N * N * list (N * ev)) :=
   match pall (let* ka := pBool in let* T := pN in let* n0 := pN in let* ops := plist p_op in
               pret (ka, T, n0, ops)) l with
   | Some (ka, T, n0, ops) =>
+      (* the start value of the id counter: small, or `k below 2^64` written as 2^40 + k *)
+      let n0r := if n0 <? W40 then n0 else ID_MOD - (n0 - W40) in
       if nodup_b (est_ids ops) && forallb (fun de => ev_small (snd de) && (fst de <? 100000000)) ops
-         && small n0 && (T <? 100000000) && (0 <? T)
-      then Some (ka, T, n0, ops) else None
+         && (small n0 || ((W40 <? n0) && (n0 <? W40 + 1000000))) && (T <? 100000000) && (0 <? T)
+      then Some (ka, T, n0r, ops) else None
   | None => None
   end.
 
@@ -60,11 +70,11 @@ Definition enc_out (o : out) : list N :=
   match o with
   | OEst p => [1; p; 0]
   | OClosed p => [2; p; 0]
-  | OSub p d => [3; p; enc_opt d]
-  | OFail i _ => [4; i; 0]
+  | OSub p d => [3; p; enc_opt (option_map wid d)]
+  | OFail i _ => [4; wid i; 0]
   | ODial p => [5; p; 0]
-  | ORet r i => [6; r; i]
-  | OCmd c i => [7; c; i]
+  | ORet r i => [6; r; wid i]
+  | OCmd c i => [7; c; wid i]
   | OPanic => [8; 0; 0]
   | OSkip => [9; 0; 0]
   | ODown p c => [10; p; c]
@@ -76,7 +86,7 @@ Definition enc_ctx (cx : ctx) : list N :=
   match c_sec cx with Some h => [1; h_id h; b2n (h_act h)] | None => [0; 0; 0] end.
 Definition dump (s : st) : list N :=
   enc_list enc_ctx (sort_by c_peer (s_ctxs s)) ++
-  [s_next s] ++
+  [wid (s_next s)] ++
   enc_list (fun k : key => [fst k; snd k]) (sort_by kkey (map fst (s_last s))) ++
   [N.of_nat (length (s_timers s))] ++
   enc_list (fun x : chan => [ch_id x; b2n (0 <? strong s (ch_id x))]) (sort_by ch_id (s_chans s)).
@@ -108,8 +118,8 @@ Inductive tout :=   (* outputs as they appear on the wire (no ghosts) *)
 Definition p_tout : parser tout :=
   let* tag := pN in let* a := pN in let* b := pN in
   match tag with
-  | 1 => pret (TEst a) | 2 => pret (TClosed a) | 3 => pret (TSub a (dec_opt b)) | 4 => pret (TFail a)
-  | 5 => pret (TDial a) | 6 => pret (TRet a b) | 7 => pret (TCmd a b) | 8 => pret TPanic
+  | 1 => pret (TEst a) | 2 => pret (TClosed a) | 3 => pret (TSub a (option_map rid (dec_opt b))) | 4 => pret (TFail (rid a))
+  | 5 => pret (TDial a) | 6 => pret (TRet a (rid b)) | 7 => pret (TCmd a (rid b)) | 8 => pret TPanic
   | 9 => pret TSkip | 10 => pret (TDown a b)
   | _ => pfail
   end.
@@ -124,7 +134,7 @@ Definition p_dump : parser tdump :=
   let* tk := plist (let* p := pN in let* c := pN in pret (p, c)) in
   let* nt := pN in
   let* al := plist (let* c := pN in let* a := pBool in pret (c, a)) in
-  pret (mkD cs nx tk nt al).
+  pret (mkD cs (rid nx) tk nt al).
 Definition p_steps (n : nat) : parser (list (list tout * tdump)) :=
   prep n (let* os := plist p_tout in let* d := p_dump in pret (os, d)).
 
@@ -188,9 +198,10 @@ Definition out8 (live : list key) (n0 : N) (e : ev) (os : list tout) (a : acc8) 
           let prim := hd_error (live_of p live) in
           mkA (a_conn a)
               (a_pend a ++ match prim with Some c => [(i, (p, c))] | None => [] end)
-              (Some i)
-              (a_ok a && mem p (a_conn a) && (n0 <=? i) &&
-               match a_maxid a with Some m => m <? i | None => true end &&
+              (Some ((i + ID_MOD - n0) mod ID_MOD))
+              (a_ok a && mem p (a_conn a) &&
+               (* identifiers advance strictly, counted modulo 2^64 from the start value *)
+               match a_maxid a with Some m => m <? (i + ID_MOD - n0) mod ID_MOD | None => true end &&
                (* the command went to the primary = oldest open connection, with the same id *)
                match prim with
                | Some c => existsb (fun o' => match o' with TCmd c' i' => (c' =? c) && (i' =? i) | _ => false end) os
@@ -201,7 +212,7 @@ Definition out8 (live : list key) (n0 : N) (e : ev) (os : list tout) (a : acc8) 
       end
   | TRet 1 _ =>    (* PeerDoesNotExist only for a peer that is not connected *)
       match e with
-      | EOpen p => mkA (a_conn a) (a_pend a) (a_maxid a) (a_ok a && negb (mem p (a_conn a)))
+      | EOpen p | EOpenFull p => mkA (a_conn a) (a_pend a) (a_maxid a) (a_ok a && negb (mem p (a_conn a)))
       | _ => mkA (a_conn a) (a_pend a) (a_maxid a) false
       end
   | TRet _ _ => a      (* ConnectionClosed: judged against the channel state in step8 *)
@@ -257,6 +268,23 @@ Definition judge_step (cap : nat) (ka : bool) (T n0 : N) (o : ost) (dt : N) (e :
     | ESubFail i => existsb (fun x => match x with TFail j => j =? i | _ => false end) os
     | ESubOut i _ => existsb (fun x => match x with TSub _ (Some j) => j =? i | _ => false end) os
     | ESubIn p c _ => skipped || existsb (fun x => match x with TSub q None => q =? p | _ => false end) os
+    | EOpenFull p =>
+        (* a full command channel: ChannelClogged (or the two earlier refusals), never a command *)
+        existsb (fun x => match x with TRet _ _ => true | _ => false end) os &&
+        forallb (fun x => match x with
+                          | TRet 2 _ => match hd_error (live_of p (o_live o)) with
+                                        | Some c => negb (dump_alive (o_prev o) c)
+                                        | None => false
+                                        end
+                          | TRet 3 _ => match hd_error (live_of p (o_live o)) with
+                                        | Some c => dump_alive (o_prev o) c
+                                        | None => false
+                                        end
+                          | TRet 1 _ => true
+                          | TRet _ _ => false
+                          | TCmd _ _ => false
+                          | _ => true
+                          end) os
     | EOpen p =>
         (* accepted while connected, unless no permit can be had (no strong sender left) *)
         existsb (fun x => match x with TRet _ _ => true | _ => false end) os &&
@@ -286,6 +314,9 @@ Definition judge_step (cap : nat) (ka : bool) (T n0 : N) (o : ost) (dt : N) (e :
                    | _ => None
                    end
                  else None
+    | EOpenFull p =>   (* the refused open still counted as activity on the primary *)
+        if ka && existsb (fun x => match x with TRet 3 _ => true | _ => false end) os
+        then option_map (fun c => (p, c)) (hd_error (live_of p (o_live o))) else None
     | ESubIn _ _ m | ESubOut _ m => if sub_seen && m && ka then anskey else None
     | _ => None
     end in
